@@ -12,7 +12,7 @@ Ev == Traces[tid].ev
 TInit == /\ tid \in 1..Len(Traces)
          /\ l = 1
          /\ verdict = "ok"
-         /\ AInit(Traces[tid].cfg.res, Traces[tid].cfg.t0)
+         /\ AInitS(Traces[tid].cfg.res, Traces[tid].cfg.t0, Traces[tid].cfg.slack)
 
 CheckOf(e) ==
   CASE e.e = "S" -> SchedCheck(e.id, e.T, e.t)
